@@ -120,11 +120,19 @@ def run(ctx):
         own = all(any(y == ("param", 3) for y in walk(x)) for x in walk(pf) if x[0] == "call" and x[1].endswith("::index"))
         run.inst("C15.S2", "forward-own-face-frame", own, "the frame is that of the function's own face argument", where(ff.fn["span"]))
     fc = fn_terms(facts, CST)
-    gv = [c for c in fc.calls() if c.callee == CRS + "get_vertex"]
-    if len(gv) != 1:
+    from ..query import closures_of, closure_subst
+    gv = [(c, None) for c in fc.calls() if c.callee == CRS + "get_vertex"]
+    for cp in closures_of(facts, CST):
+        gv += [(c, cp) for c in fn_terms(facts, cp).calls() if c.callee == CRS + "get_vertex"]
+    arg = None
+    if len(gv) == 1:
+        arg = gv[0][0].args[1]
+        if gv[0][1] is not None:
+            arg = closure_subst(facts, gv[0][1], arg)   # the lookup sits in a closure of an iterator chain: read captures in the parent
+        gv = [gv[0][0]]
+    if arg is None:
         run.bad("C15.S2", "triangle-frame", "expected one CRS lookup in compute_spherical_triangle", where(fc.fn["span"]))
     else:
-        arg = gv[0].args[1]
         quats = {x[2] for x in walk(arg) if x[0] == "field" and x[2] in ("quat", "inverse_quat")}
         pol = [x for x in walk(arg) if x[0] == "call" and x[1].endswith("polar::Polar::new")]
         sgn = angle_sign(facts, pol[0], fc) if pol else None
